@@ -22,7 +22,7 @@ impl SessionTracker {
 
 //@fn rodbus/src/tcp/server.rs | SessionTracker::new | tags=C15
 //@|    ensures r.wf(), r@ == Map::<u128, tokio::sync::mpsc::Sender<ServerCommand>>::empty(),
-//@|        r.max_sessions == (if max_sessions == 0 { 1 } else { max_sessions }), r.id == 0,
+//@|        r.max_sessions == (if max_sessions == 0 { 1 } else { max_sessions }),
 
 //@fn rodbus/src/tcp/server.rs | SessionTracker::get_next_id | tags=C15
 //@|    requires old(self).id < u128::MAX,
